@@ -72,6 +72,9 @@
 //
 //	(*Router).Run(raw, ingress) (Obs, error) VerifProcess on the real dataplane; Obs{NowNs, Res, In,
 //	                                         Out (parsed records), Changed (byte diff), InLen, OutLen}
+//	(*Router).RunOn(proc, raw, ingress)      same on a REUSED processor (router.VerifNewProcessor)
+//	(*Ctx).EmitSeq(stream, name, rt, scs)    a sequence back to back on one reused processor, each packet an
+//	                                         ordinary case; TamperMAC(sc, bit); (*Ctx).Pairs(stream, nCfg, n, kinds)
 //	(*Obs).Class()                           coarse outcome label ("forward-external", "scmp-4-51", ...)
 //	CaseTerm(cfgName, cfg, ing, l4, obs)     Gallina `let p := <pkt> in Router.CPkt ...` incl. the MAC
 //	                                         table (every MAC the model may query, real key)
